@@ -151,6 +151,53 @@ theorem C05_builds_iff (lv : List (Name × Nat)) (r : BRxn) (lm : List Nat) :
     rw [hm]
     rfl
 
+/-- the initial amount of every base variable is preserved: its block of the labelled initial
+    state lists exactly its isotopomers, the amounts add up to the base amount, and all of it sits
+    on the isotopomer labelled at exactly the requested positions (unlabelled when none is
+    requested) -/
+theorem C05_totals_preserved (lv : List (Name × Nat)) (initLabels : List (Name × List Nat))
+    (k : Name) (v : Rat) :
+    (initBlock lv initLabels k v).map (·.1) = binaryLabels k (labelsOf lv k) ∧
+    ((initBlock lv initLabels k v).map (·.2)).sum = v ∧
+    ∃ target, (initBlock lv initLabels k v).lookup target = some v ∧
+      (∀ p ∈ initBlock lv initLabels k v, p.1 ≠ target → p.2 = 0) ∧
+      (∀ n pos, lv.lookup k = some n → initLabels.lookup k = some pos →
+        target = assignLabel k (initSuffix n pos) ∧ (initSuffix n pos).length = n ∧
+        ∀ idx, idx < n → (initSuffix n pos)[idx]? = some (pos.contains idx)) ∧
+      (∀ n, lv.lookup k = some n → initLabels.lookup k = none →
+        target = assignLabel k (List.replicate n false)) := by
+  obtain ⟨target, hmem, heq, h1, h2⟩ := initBlock_eq lv initLabels k v
+  refine ⟨?_, ?_, target, ?_, ?_, ?_, h2⟩
+  · rw [heq]; simp [Function.comp_def]
+  · rw [heq]; simp only [List.map_map, Function.comp_def]
+    exact sum_indicator_rat _ (binaryLabels_nodup _ _) _ hmem v
+  · rw [heq]
+    have : ∀ (L : List LName), target ∈ L →
+        (L.map fun n => (n, if n = target then v else (0 : Rat))).lookup target = some v := by
+      intro L hL
+      induction L with
+      | nil => simp at hL
+      | cons a L ih =>
+        by_cases e : a = target
+        · subst e; simp
+        · have hb : (target == a) = false := by simpa using fun h => e h.symm
+          have : target ∈ L := by
+            rcases List.mem_cons.mp hL with h | h
+            · exact absurd h.symm e
+            · exact h
+          simp only [List.map_cons, List.lookup, hb]
+          exact ih this
+    exact this _ hmem
+  · rw [heq]
+    intro p hp hne
+    obtain ⟨n, _, rfl⟩ := List.mem_map.mp hp
+    simp only at hne ⊢
+    rw [if_neg hne]
+  · intro n pos hl hi
+    refine ⟨h1 n pos hl hi, initSuffix_length n pos, ?_⟩
+    intro idx hidx
+    simp [initSuffix, List.getElem?_map, List.getElem?_range hidx]
+
 /-- **collapse** (under `DistinctOccurrences`): for a mass-action reaction, the rates of its
     isotopomer reactions sum to the base rate evaluated at the isotopomer totals, at every state -/
 theorem C05_collapse_partial {lv : List (Name × Nat)} {r : BRxn} {lm : List Nat} {rs : List LRxn}
